@@ -67,6 +67,9 @@ type Verdict struct {
 	Counters map[string]int64
 	// Size orders samples (the largest non-trivial case is kept as a sample).
 	Size int
+	// Repro, when set, is written to the fail file instead of the generated case (same type):
+	// used by checks that search inside a case (enumerations) and know the precise failing point.
+	Repro any
 }
 
 func (v *Verdict) Class(c string) { v.Classes = append(v.Classes, c) }
@@ -181,6 +184,9 @@ func writeFail(prop string, cs any, v *Verdict) {
 	path := os.Getenv("VERIF_FAILFILE")
 	if path == "" {
 		return
+	}
+	if v.Repro != nil {
+		cs = v.Repro
 	}
 	raw, err := json.MarshalIndent(cs, " ", " ")
 	if err != nil {
